@@ -144,6 +144,21 @@ def run_long(ctx, pt):
     ctx.eq('C07/bytes-roundtrip', val(Bits(b.bytes(), size=8 * l)), mval(8 * l, x))
 
 
+def pts_verylong(tier):
+    return [(4098, 3), (4098, 6), (4100, 5), (4104, 9), (8190, 7), (8192, 2), (4097, 1), (4097, -1), (4110, 10), (12288, 12), (4098, 0)]
+
+
+def run_verylong(ctx, pt):
+    """byte strings beyond 4 KiB with group sizes that are not powers of two (sampled)"""
+    from crysp.bits import Bits
+    l, o = pt
+    s = expander(l, 9)
+    n, x = model_load(s, o)
+    ctx.eq('C07/from-bytes/long-string', ctx.attempt(lambda: val(Bits(s, bitorder=o))), ('ok', mval(n, x)))
+    b = Bits(x, n)
+    ctx.eq('C07/bytes/long-string', ctx.attempt(lambda: val(Bits(b.bytes(), size=n))), ('ok', mval(n, x)))
+
+
 def pts_wide(tier):
     ws = list(range(17, 131)) + [255, 256, 257, 1023, 1024, 1025, 2047, 2048, 2049]
     return ws if tier == 'thorough' else [w for w in ws if w < 34 or w in (63, 64, 65, 127, 128, 129, 257, 2048, 2049)]
@@ -187,6 +202,7 @@ def subchecks():
             bound='every byte string of length 0..2 under bitorder in {-1,+1,0,2}, with and without size'),
         Sub('byte-strings', pts_long, run_long, engine='P',
             bound='every byte length 1..40 x 3 patterns x bitorder in {-1,+1,0} U {k in 2..8 : k | len}, each with 12 explicit sizes, and again after negative group orders were used; generalized unpack both endiannesses'),
+        Sub('very-long-byte-strings', pts_verylong, run_verylong, engine='P', exhaustive=False, bound='11 byte strings of 4097..12288 bytes with group sizes 1, 2, 3, 5, 6, 7, 9, 10, 12 and the one-integer order'),
         Sub('wide', pts_wide, run_wide, engine='P', exhaustive=False,
             bound='widths 17..130, 255..257, 1023..1025, 2047..2049 (quick: subset) x {0,1,2^k-1,2^k,2^k+1,2^n-1,alternating}; sampled per the property statement'),
     ]
